@@ -53,6 +53,7 @@ var ErrHlsSessionNotFound = errors.New("lal.hls: hls session not found")
 var (
 	ErrAmfInvalidType = errors.New("lal.rtmp: invalid amf0 type")
 	ErrAmfTooShort    = errors.New("lal.rtmp: too short to unmarshal amf0 data")
+	ErrAmfNestTooDeep = errors.New("lal.rtmp: amf0 data nested too deep")
 	ErrAmfNotExist    = errors.New("lal.rtmp: not exist")
 
 	ErrRtmpShortBuffer   = errors.New("lal.rtmp: buffer too short")
